@@ -45,6 +45,8 @@ def main():
     old_meta = {}
     if os.path.exists(os.path.join(dst, "meta.json")):
         old_meta = json.load(open(os.path.join(dst, "meta.json")))
+    if not a.needs and old_meta.get("needs_to_manifest"):
+        meta["needs_to_manifest"] = old_meta["needs_to_manifest"]
     env = dict(os.environ)
     env["PYTHONPATH"] = scratch + ":" + dst
     env.setdefault("XDG_CACHE_HOME", os.path.join(HERE, ".cache", "xdg"))
